@@ -123,6 +123,13 @@ def rule_b(ctx, cr):
         for c in b.conds_at(bb):
             if c[0] == "eq" and c[2] is True and "PartialOrd" in str(c[1]) and "::gt(" in str(c[1]):
                 guards["bound"] = True
+            # the same per-dimension test as `requested.iter().zip(bounds).any(|(r, d)| r > d)`
+            if c[0] == "eq" and c[2] is True and "::any(" in str(c[1]) and "zip(" in str(c[1]).lower():
+                for g in cr.closures_of(b.path):
+                    for gc in g.calls():
+                        if (gc.callee or "").endswith("PartialOrd::gt") and \
+                                "i16" in (getattr(gc, "self_ty", "") or ""):
+                            guards["bound"] = True
     ctx.check(guards["count"], "C06.b", "build_array_key/dimension-count", b.span,
               "a different number of subscripts is SUBSCRIPT OUT OF RANGE",
               "the dimension-count guard is gone")
